@@ -4,6 +4,7 @@ import (
 	"fmt"
 	"math/rand"
 	"runtime"
+	"strings"
 	"sync"
 	"sync/atomic"
 	"time"
@@ -371,4 +372,58 @@ func tail64(v []int64, n int) []int64 {
 		return v[len(v)-n:]
 	}
 	return v
+}
+
+// c07NeverBlocks: Offer / Poll / Count do not wait for the loader: with a loader interval of several seconds, a
+// non-empty overflow buffer and no consumer, every call returns at once. A call that has not returned after 1.5 s is a
+// violation only if a goroutine dump shows it parked on a lock inside the queue (a starved but runnable goroutine is
+// inconclusive).
+func c07NeverBlocks(id string, capy int) core.Scenario {
+	return core.Scenario{ID: id, Class: "BufferedChannelQueue.nonblocking", Run: func(c *core.Ctx) {
+		c.Distinct(id)
+		q := fpgo.NewBufferedChannelQueue[int64](capy, 6, 4)
+		q.SetLoadFromPoolDuration(4 * time.Second)
+		defer func() { go core.Catch(q.Close) }()
+		for i := 0; i < capy+2; i++ {
+			q.Offer(int64(i + 1)) // the last two land in the overflow buffer and wake the loader
+		}
+		time.Sleep(5 * time.Millisecond)
+		ops := []struct {
+			name string
+			run  func()
+		}{
+			{"Offer", func() { q.Offer(100) }},
+			{"Count", func() { q.Count() }},
+			{"Poll", func() { q.Poll() }},
+			{"Offer", func() { q.Offer(101) }},
+			{"Poll", func() { q.Poll() }},
+			{"Count", func() { q.Count() }},
+		}
+		for k, op := range ops {
+			c.Eval(1)
+			done := make(chan struct{})
+			go func() { defer close(done); op.run() }()
+			select {
+			case <-done:
+				continue
+			case <-time.After(1500 * time.Millisecond):
+			}
+			gs, _ := core.Dump()
+			parked := ""
+			for _, g := range gs {
+				if strings.Contains(g.Text, "BufferedChannelQueue") && strings.Contains(g.Text, ")."+op.name+"(") &&
+					(strings.Contains(g.State, "semacquire") || strings.Contains(g.State, "sync.Mutex") || strings.Contains(g.State, "sync.RWMutex")) {
+					parked = g.State
+				}
+			}
+			if parked != "" {
+				c.Violationf("nonblocking:"+op.name+"-waits-for-the-loader", map[string]any{"scenario": id, "capacity": capy, "call": k, "goroutine_state": parked},
+					"capacity %d, buffer 6 holding 2 values, loader interval 4 s, no consumer: %s (call #%d) has been parked on a lock of the queue for 1.5 s (goroutine state %q): the non-blocking operations wait for the loader", capy, op.name, k, parked)
+			} else {
+				c.Inconclusive(fmt.Sprintf("%s did not return within 1.5 s but is not parked on a lock (%s)", op.name, id))
+			}
+			<-done
+			return
+		}
+	}}
 }
